@@ -216,3 +216,28 @@ Definition spec_procs (ps : list proc) (cb : cbkind) (start : Q) (timeout : opti
       && match timeout with Some t => Qlt_bool ret (start + t + cap) | None => true end
     end
   end.
+
+(* ---- aliased input: `input` lists handles by the process they name (a process may occur several times, or
+   not at all); the returned lists hold each PROCESS of the input once ---- *)
+Definition spec_partition_in (input : list nat) (n : nat) (has_cb : bool) (gone alive : list nat)
+    (rc : list (nat * wres)) (cbs : list nat) : bool :=
+  forallb (fun i => Nat.eqb (count i gone + count i alive)%nat (if mem i input then 1 else 0)%nat
+                    && Nat.eqb (count i (map fst rc)) (count i gone)
+                    && Nat.eqb (count i cbs) (if has_cb then count i gone else 0))
+          (seq 0 n)
+  && forallb (fun i => mem i input) (gone ++ alive).
+
+Definition spec_procs_in (input : list nat) (ps : list proc) (cb : cbkind) (start : Q) (timeout : option Q)
+    (exc : option wres) (gone alive : list nat) (rc : list (nat * wres)) (cbs : list nat) (ret : Q) : bool :=
+  if bad_timeout timeout then match exc with Some RValueError => true | _ => false end
+  else match cb with
+  | CbBad => match exc with Some RTypeError => true | _ => false end
+  | _ =>
+    match exc with
+    | Some _ => false
+    | None =>
+      spec_partition_in input (length ps) (match cb with CbOk _ => true | _ => false end) gone alive rc cbs
+      && forallb (rc_ok ps ret) rc
+      && match timeout with Some t => Qlt_bool ret (start + t + cap) | None => true end
+    end
+  end.
